@@ -37,6 +37,17 @@ def loop (d : Nat) (q : NBox) (a : Arr) : Nat → List Nat → List Row × List 
       else if e - s ≤ a.ps then loop d q a fuel rest (acc.1, acc.2 ++ a.slice s e)
       else loop d q a fuel (leftChild node :: rightChild node :: rest) acc
 
+/-- `_NumbaRtree.intersects` over the arrays: covered ranges, then the rows of the maybe-ranges tested one by one -/
+def intersectsArr (d : Nat) (a : Arr) (q : NBox) : List Nat :=
+  let r := loop d q a a.len [0] ([], [])
+  r.1.map (·.1) ++ (r.2.filter (fun row => !outside d q row.2)).map (·.1)
+
+/-- `_NumbaRtree.covers_overlaps` over the arrays -/
+def coversOverlapsArr (d : Nat) (a : Arr) (q : NBox) : List Nat × List Nat :=
+  let r := loop d q a a.len [0] ([], [])
+  (r.1.map (·.1) ++ (r.2.filter (fun row => inside d q row.2)).map (·.1),
+   (r.2.filter (fun row => !(outside d q row.2 || inside d q row.2))).map (·.1))
+
 /-- the sub-tree at depth `t`, position `j` of the page tree over `rows` -/
 def sub (a : Arr) (t j : Nat) : PTree := build a.ps (a.D - t) (a.rows.drop (j * 2 ^ (a.D - t) * a.ps))
 
